@@ -8,6 +8,7 @@ import (
 	"path/filepath"
 	"sort"
 	"strings"
+	"sync"
 	"time"
 )
 
@@ -27,6 +28,13 @@ func labelProp(label string) string {
 	}
 	return label
 }
+
+var (
+	replayMode       = map[string]string{}
+	noReplay         bool
+	extraOverlay     map[string]string
+	witnessValidated int
+)
 
 func report(prop, tier string, seed int, results []*harnessResult, loadDur, wall time.Duration, verbose, noEvidence bool) int {
 	known := loadKnown()
@@ -180,12 +188,20 @@ func report(prop, tier string, seed int, results []*harnessResult, loadDur, wall
 	for _, w := range witnessSamples {
 		samples = append(samples, w)
 	}
-	// violations -> replay files
+	// violations -> replay files -> native confirmation
 	code := 0
+	validated := 0
 	if len(violations) > 0 {
-		code = 1
 		os.MkdirAll(filepath.Join(verifDir, "replays"), 0o755)
 		seen := map[string]bool{}
+		type job struct {
+			v    Oblig
+			path string
+			rf   *replayFile
+			ok   bool
+			note string
+		}
+		var jobs []*job
 		for _, v := range violations {
 			key := v.Harness + "|" + v.Label
 			if seen[key] {
@@ -193,12 +209,45 @@ func report(prop, tier string, seed int, results []*harnessResult, loadDur, wall
 			}
 			seen[key] = true
 			p := filepath.Join(verifDir, "replays", fmt.Sprintf("%s_%s_%s.json", prop, strings.TrimPrefix(v.Harness, "VerifHarness_"), sanitize(v.Label)))
-			b, _ := json.MarshalIndent(map[string]interface{}{"property": prop, "harness": v.Harness, "obligation": v.Label, "where": v.Where, "kind": v.Kind, "model": v.Model}, "", " ")
+			rf := &replayFile{Property: prop, Harness: v.Harness, Obligation: v.Label, Where: v.Where, Kind: v.Kind, Model: v.Model}
+			b, _ := json.MarshalIndent(rf, "", " ")
 			os.WriteFile(p, b, 0o644)
-			fmt.Printf("VIOLATION property=%s replay=%s\n", prop, p)
-			fmt.Printf("  obligation %s failed in %s at %s\n", v.Label, v.Harness, v.Where)
+			jobs = append(jobs, &job{v: v, path: p, rf: rf})
 		}
-	} else if len(inconclusive) > 0 {
+		var wg sync.WaitGroup
+		sem := make(chan struct{}, 8)
+		for _, j := range jobs {
+			if replayMode[j.v.Harness] == "model" || noReplay {
+				j.ok, j.note = true, "solver model only (native replay not available for clock/timer harnesses)"
+				continue
+			}
+			wg.Add(1)
+			go func(j *job) {
+				defer wg.Done()
+				sem <- struct{}{}
+				defer func() { <-sem }()
+				fails, _, err := replayNative(j.rf, j.path, extraOverlay)
+				if err != nil {
+					j.note = "replay error: " + err.Error()
+					return
+				}
+				j.ok = reproduced(j.rf, fails)
+				j.note = fmt.Sprintf("native run failures=%v", fails)
+			}(j)
+		}
+		wg.Wait()
+		for _, j := range jobs {
+			if j.ok {
+				code = 1
+				validated++
+				fmt.Printf("VIOLATION property=%s replay=%s\n", prop, j.path)
+				fmt.Printf("  obligation %s failed in %s at %s; %s\n", j.v.Label, j.v.Harness, j.v.Where, j.note)
+			} else {
+				inconclusive = append(inconclusive, fmt.Sprintf("%s: %s: solver model not confirmed natively (%s); model in %s", j.v.Harness, j.v.Label, j.note, j.path))
+			}
+		}
+	}
+	if code == 0 && len(inconclusive) > 0 {
 		code = 2
 	}
 	for i, m := range inconclusive {
@@ -223,7 +272,7 @@ func report(prop, tier string, seed int, results []*harnessResult, loadDur, wall
 		"coverage": map[string]interface{}{
 			"states":                        totalPaths,
 			"transitions":                   totalInstrs,
-			"traces_validated_against_impl": 0,
+			"traces_validated_against_impl": validated + witnessValidated,
 			"samples":                       samples,
 			"obligations":                   obligations,
 			"discharged":                    discharged,
